@@ -28,9 +28,22 @@ for _f in sorted(glob.glob(os.path.join(os.path.dirname(os.path.abspath(__file__
     _m = importlib.util.module_from_spec(_spec)
     _spec.loader.exec_module(_m)
     for k, v in getattr(_m, "VARIANTS", {}).items():
-        if k in VARIANTS and VARIANTS[k] != v:
-            raise RuntimeError(f"variant {k} defined twice differently ({_f})")
-        VARIANTS[k] = v
+        if k in VARIANTS:
+            # the same variant may be declared by several fragments: list-valued keys (common_mods, inner, subs,
+            # features, cfgs) are united, scalar keys must agree
+            cur = VARIANTS[k]
+            for kk, vv in v.items():
+                if isinstance(vv, list):
+                    lst = cur.setdefault(kk, [])
+                    for x in vv:
+                        if x not in lst:
+                            lst.append(x)
+                elif kk in cur and cur[kk] != vv:
+                    raise RuntimeError(f"variant {k}: key {kk} defined twice differently ({_f})")
+                else:
+                    cur[kk] = vv
+        else:
+            VARIANTS[k] = {kk: (list(vv) if isinstance(vv, list) else vv) for kk, vv in v.items()}
     for p, lst in getattr(_m, "PLAN", {}).items():
         for ent in lst:
             cur = PLAN.setdefault(p, [])
